@@ -5,7 +5,7 @@ Import ListNotations.
 
 (* ---- the resolve loop of reb_collision_search, for EVERY pending array (hence every processing order produced by
    the shuffle), every resolver that leaves the particle order alone, every outcome sequence, keep_sorted on/off,
-   tree / no tree (except keep_sorted together with a tree, where the library refuses to remove). *)
+   tree / no tree (except keep_sorted together with a tree, where the library refuses to remove), every value of N_active. *)
 Section Loop.
 Context {P St : Type} (pid : P -> Z) (isflag : P -> bool) (flag : P -> P)
         (res : St -> list P -> entry -> St * list P * Z).
@@ -14,13 +14,10 @@ Hypothesis flag_set : forall p, isflag (flag p) = true.
 Hypothesis res_frame : forall s ps e s' ps' o, res s ps e = (s', ps', o) -> view pid isflag ps' = view pid isflag ps.
 Variables (tree keep : bool) (nact : Z) (ps : list P) (pend : list entry) (s s' : St) (psf : list P) (naf : Z) (log : list event).
 Hypothesis not_both : tree && keep = false.
-(* removing a particle never moves a second one: keep_sorted, or a tree, or N_active <= 0 (-1 = all active, the default).
-   Without it the statement is false of the code: C13_fixup_nactive_refuted below. *)
-Hypothesis nact_ok : na_ok tree keep nact.
 Hypothesis ids_unique : NoDup (idsV (view pid isflag ps)).
 Hypothesis pend_valid : Forall (live_entry (view pid isflag ps)) pend.
 Hypothesis run : resolve_loop pid flag res tree keep (fun e => e) nact s ps pend = (s', psf, naf, log).
-Let run_na := loop_is_na pid flag res tree keep _ _ _ _ _ _ _ _ _ nact_ok run.
+Let run_na := loop_is_na pid flag res tree keep _ _ _ _ _ _ _ _ _ run.
 
 (* the index juggling (tombstones, shift-down / moved-last remapping, both outcome bits, deferred tree removal)
    makes exactly the calls of the identity-level loop: walk the identity pairs in order, skip a pair iff one of its
@@ -43,7 +40,7 @@ Print Assumptions C13_fixup_refines.
 Print Assumptions C13_no_loss_no_dup.
 Print Assumptions C13_merged_once.
 
-(* one removal (rmV = the model's removal when no second particle is moved, LoopNA.remove_particle_is_na):
+(* one removal (rmV = the array component of the model's removal, for every N_active: LoopNA.remove_particle_is_na):
    every other particle is found at the remapped index, the live ids lose exactly the removed one *)
 Theorem C13_remove_particle_remap : forall tree keep v k a,
   tree && keep = false -> NoDup (idsV v) -> zth v k = Some (a, false) ->
@@ -167,7 +164,6 @@ Print Assumptions C13_line_enumerates.
 
 (* ---- merge + the removal the loop performs: sums of m, m v, m x over the WHOLE array are unchanged, N drops by one *)
 Theorem C13_merge_conserves_total : forall (flag : particle R -> particle R) t cb ps p1 p2 a b keep nact,
-  na_ok false keep nact ->
   zth ps p1 = Some a -> zth ps p2 = Some b -> p1 <> p2 -> plc a <> t -> plc b <> t -> pm a + pm b <> 0 ->
   exists ps' ps'' nact',
     fst (merge RNum t cb ps p1 p2) = ps' /\
@@ -222,12 +218,20 @@ Theorem C13_max_radius_merge_preserved : forall st l ri rj rest c, radii_ok st l
 Proof. exact radii_merge. Qed.
 Print Assumptions C13_max_radius_merge_preserved.
 
-(* ---- N_active > 0, no keep_sorted, no tree: reb_simulation_remove_particle of an active particle moves TWO particles
-   (last active into the hole, last particle into its slot) but the loop's fix-up only renumbers the last one:
-   the second pending entry (2,3) = ids (1002,1003) is handed to resolve as ids (1004,1003) *)
-Theorem C13_fixup_nactive_refuted :
+(* ---- N_active: the bookkeeping of reb_simulation_remove_particle (decrement; clamp in the unsorted branch) never
+   decides which particle sits where (the loop theorems above hold for every N_active), and keeps N_active <= N *)
+Theorem C13_nactive_independent : forall (P St : Type) (pid : P -> Z) (flag : P -> P) (res : St -> list P -> entry -> St * list P * Z)
+    tree keep pend fx nact s ps s' psf naf log,
+  resolve_loop pid flag res tree keep fx nact s ps pend = (s', psf, naf, log) ->
+  resolve_loop_na pid flag res tree keep fx s ps pend = (s', psf, log).
+Proof. exact @loop_is_na. Qed.
+Theorem C13_nactive_bounded : forall (P : Type) (flag : P -> P) tree keep nact ps k ps' nact',
+  remove_particle flag tree keep nact ps k = (ps', nact', true) -> (nact <= zlen ps)%Z -> (nact' <= zlen ps')%Z.
+Proof. exact @nact_le_N. Qed.
+(* the hand-over that went wrong while an active removal moved two particles (a7d12d9..95ccee5) is right again *)
+Example C13_nactive_regression :
   let ids := [1000; 1001; 1002; 1003; 1004]%Z in
   let pend := [(1, 0, 13); (2, 3, 13)]%Z in
-  map (den0 (map (fun i => (i, false)) ids)) pend = [(1001, 1000, 13); (1002, 1003, 13)]%Z /\
-  map ev_id (fst (fst (loop_ids false false 3 ids pend [1; 2]%Z))) = [(1001, 1000, 13, 1); (1004, 1003, 13, 2)]%Z.
+  map ev_id (fst (fst (loop_ids false false 3 ids pend [1; 2]%Z))) = [(1001, 1000, 13, 1); (1002, 1003, 13, 2)]%Z /\
+  snd (loop_ids false false 3 ids pend [1; 2]%Z) = 3%Z.
 Proof. split; vm_compute; reflexivity. Qed.
